@@ -202,6 +202,7 @@ type solveOpts struct {
 	thorough bool
 	seed     int
 	jobs     int
+	short    map[string]bool // obligation names with a 2 s budget (open known findings)
 }
 
 func solveAll(obls []*Obligation, opts solveOpts) {
@@ -296,6 +297,9 @@ func solveOne(o *Obligation, file string, opts solveOpts) *SolveResult {
 				return res
 			}
 		}
+	}
+	if opts.short[o.Name] {
+		opts.secs = 2
 	}
 	race := []solverSpec{solvers[0], solvers[1], solvers[2]}
 	ch := make(chan answer, len(race))
